@@ -101,3 +101,96 @@ Proof.
   - exact eq_refl.
   - intros H. pose proof ex_prog_determined as T. rewrite H in T. discriminate.
 Qed.
+
+(* ---------- wave 5: numeric-for operands ---------- *)
+From GL Require Import Lua.ForFacts Lua.AssignFacts.
+
+(* for b = "1", " 4 ", "0x1" do a = a + b end  is the loop over the numbers 1, 4, 1 (by the
+   theorem), and that loop leaves a = 1 + (1+2+3+4) (by computation) *)
+Definition s_one : bytes := [49]. Definition s_four : bytes := [32;52;32]. Definition s_hexone : bytes := [48;120;49].
+Definition for_body : list stmt := [SAssign 2 [EVar n_a] [EBin OAdd (EVar n_a) (EVar n_b)]].
+Example ex_numfor_hyps : text_to_f s_one = PNum (f_of_Z 1) /\ text_to_f s_four = PNum (f_of_Z 4) /\ text_to_f s_hexone = PNum (f_of_Z 1).
+Proof. repeat split; vm_compute; reflexivity. Qed.
+Example ex_numfor_strings :
+  exec 40 cx0 en0 (SNumFor 1 n_b (EStr s_one) (EStr s_four) (Some (EStr s_hexone)) for_body) st =
+  exec 40 cx0 en0 (SNumFor 1 n_b (enum 1) (enum 4) (Some (enum 1)) for_body) st.
+Proof.
+  destruct ex_numfor_hyps as [H1 [H2 H3]].
+  exact (numfor_string_literal_lemma 38 cx0 en0 1 n_b s_one s_four s_hexone _ _ _ for_body st H1 H2 H3).
+Qed.
+Example ex_numfor_runs : match exec 40 cx0 en0 (SNumFor 1 n_b (EStr s_one) (EStr s_four) (Some (EStr s_hexone)) for_body) st with
+                         | Ret (SigNormal, _) s' => nth 0 (cells s') VNil = num 11 | _ => False end.
+Proof. rewrite ex_numfor_strings. vm_compute. reflexivity. Qed.
+
+(* for b = 1, "x" do ... end : the limit is not a numeral: error of class 6 on line 1, no iteration *)
+Example ex_numfor_bad : exec 40 cx0 en0 (SNumFor 1 n_b (enum 1) (EStr [120]) None for_body) st = Err (VFault 6 1) st.
+Proof.
+  apply (numfor_bad_operand_lemma 39 cx0 en0 1 n_b (enum 1) (EStr [120]) None for_body st (num 1) st (VStr [120]) st (VNum 1%float) st);
+    try reflexivity; try exact I. right. left. vm_compute. reflexivity.
+Qed.
+
+(* ---------- wave 5: multiple assignment to fields of one table ---------- *)
+(* c is a fresh table without metatable; c.x, c.y = b, a : the hypotheses of
+   assign_fields_simultaneous hold and the fields are 2 and 1 *)
+Definition rT : nat := length (tabs (init_state no_devs [])).
+Definition st_t : state :=
+  with_tabs (with_cells (init_state no_devs []) [num 1; num 2; VTab rT]) (tabs (init_state no_devs []) ++ [empty_tab]).
+Definition k_x : bytes := [120]. Definition k_y : bytes := [121].
+Definition lhs_t : list expr := [EIndex (EVar n_c) (EStr k_x); EIndex (EVar n_c) (EStr k_y)].
+Example ex_fields_hyps :
+  mapM (assign_ref 5 cx0 1 en0) lhs_t st_t = Ret (map (field_ref rT) [k_x; k_y]) st_t /\
+  eval_list_with (eval_e 5 cx0 1 en0) (eval_multi 5 cx0 1 en0) [EVar n_b; EVar n_a] st_t = Ret [num 2; num 1] st_t /\
+  NoDup [k_x; k_y] /\ (rT < length (tabs st_t))%nat /\ t_meta (nth rT (tabs st_t) empty_tab) = None /\
+  Forall (fun v => is_nil v = false) (adjust 2 [num 2; num 1]).
+Proof.
+  split; [vm_compute; reflexivity|]. split; [vm_compute; reflexivity|].
+  split; [repeat constructor; simpl; intuition discriminate|].
+  split; [vm_compute; lia|]. split; [vm_compute; reflexivity|]. repeat constructor.
+Qed.
+Example ex_fields_assigned : exists s3,
+  exec 6 cx0 en0 (SAssign 1 lhs_t [EVar n_b; EVar n_a]) st_t = Ret (SigNormal, en0) s3 /\
+  kv_get (t_kv (nth rT (tabs s3) empty_tab)) (VStr k_x) = num 2 /\
+  kv_get (t_kv (nth rT (tabs s3) empty_tab)) (VStr k_y) = num 1.
+Proof.
+  destruct ex_fields_hyps as [H1 [H2 [H3 [H4 [H5 H6]]]]].
+  destruct (assign_fields_lemma 4 cx0 en0 1 lhs_t rT [k_x; k_y] [EVar n_b; EVar n_a] st_t st_t [num 2; num 1] st_t H1 H2 H3 H4 H5 H6)
+    as [s3 [E [Hf _]]].
+  exists s3. split; [exact E|]. split; [exact (Hf 0%nat ltac:(simpl; lia))|exact (Hf 1%nat ltac:(simpl; lia))].
+Qed.
+
+(* ---------- wave 5: OP_FORPREP / OP_FORLOOP of the VM model ---------- *)
+From GL Require Import VM.Opcode VMX.Machine VMX.Step.
+From GL Require VMX.ForFacts.
+Open Scope Z_scope.
+(* registers 1..3 of a frame with LocalBase 1 hold "1", 7, " 2 " (init, limit, step) *)
+Definition i_forprep : Z := Z.lor (Z.shiftl 35 26) (131071 + 2).   (* FORPREP A=0 sBx=2 *)
+Definition i_forloop : Z := Z.lor (Z.shiftl 34 26) (131071 - 3).   (* FORLOOP A=0 sBx=-3 *)
+Definition cf_for : cframe := mkFrame (FnLua 0%nat) 1 0 1 0 0 (-1) 0.
+Definition cl_for : closure := mkCl (XProto [] [] [] 0 0 0 5 [] 0) [] 0%nat.
+Definition s_for : vstate :=
+  mkVS (mkReg [Some (VFun 0%nat); Some (VStr [49]); Some (VNum (f_of_Z 7)); Some (VStr [32;50;32])] 4)
+       [cf_for] [] [] [cl_for] [] [] [] None 0%nat [mkTh (mkReg [] 0) [] [] None false false true 0] 0%nat.
+Definition ml0 : option nat -> VM unit := fun _ => vret tt.
+Definition gf0 : builtin -> VM Z := fun _ => vret 0.
+
+Example ex_forprep_hyps : op_of_code (opGetOpCode i_forprep) = Some OP_FORPREP /\ opGetArgA i_forprep = 0 /\
+  op_of_code (opGetOpCode i_forloop) = Some OP_FORLOOP /\ opGetArgA i_forloop = 0 /\
+  exists s', exec_op ml0 gf0 cl_for cf_for i_forprep None s_for = VRet false s'.
+Proof. repeat split; try (vm_compute; reflexivity). eexists. vm_compute. reflexivity. Qed.
+
+(* the string step " 2 " has become the number 2 in its cell, and the FORLOOP that follows cannot raise *)
+Example ex_forprep_normalised : exists s', exec_op ml0 gf0 cl_for cf_for i_forprep None s_for = VRet false s' /\
+  Get (vreg s') 3 = Some (VNum (f_of_Z 2)) /\ Get (vreg s') 2 = Some (VNum (f_of_Z 7)) /\
+  forall v s'', exec_op ml0 gf0 cl_for cf_for i_forloop None s' <> VErr v s''.
+Proof.
+  destruct ex_forprep_hyps as [Hp [HA [Hl [HA' [s' E]]]]]. exists s'. split; [exact E|].
+  assert (Hra : 0 <= fr_localbase cf_for + opGetArgA i_forprep) by (rewrite HA; vm_compute; discriminate).
+  destruct (VMX.ForFacts.forprep_normalises_lemma ml0 gf0 cl_for cf_for i_forprep None s_for false s' Hp Hra E)
+    as (v0 & v1 & v2 & init & limit & step & G0 & G1 & G2 & T0 & T1 & T2 & R0 & R1 & R2 & _).
+  rewrite HA in *. change (fr_localbase cf_for + 0) with 1 in *. change (1 + 1) with 2 in *. change (1 + 2) with 3 in *.
+  vm_compute in G1, G2. inversion G1; subst v1. inversion G2; subst v2.
+  vm_compute in T1. inversion T1; subst limit. vm_compute in T2. inversion T2; subst step.
+  split; [exact R2|]. split; [exact R1|].
+  intros v s''. eapply (VMX.ForFacts.forprep_then_forloop_lemma ml0 gf0 cl_for cf_for i_forprep None s_for false s' ml0 gf0 cl_for i_forloop None Hp Hl);
+    [rewrite HA, HA'; reflexivity|exact Hra|exact E|reflexivity].
+Qed.
